@@ -21,6 +21,8 @@ package buffer
 import (
 	"errors"
 	"sync"
+
+	"google.golang.org/grpc/internal/verifhook"
 )
 
 // Unbounded is an implementation of an unbounded buffer which does not use
@@ -50,6 +52,7 @@ var errBufferClosed = errors.New("Put called on closed buffer.Unbounded")
 
 // Put adds t to the unbounded buffer.
 func (b *Unbounded[T]) Put(t T) error {
+	verifhook.At("unb.put", b)
 	b.mu.Lock()
 	defer b.mu.Unlock()
 	if b.closing {
@@ -70,6 +73,7 @@ func (b *Unbounded[T]) Put(t T) error {
 // by Get(). Users are expected to call this every time they successfully read a
 // value from the read channel.
 func (b *Unbounded[T]) Load() {
+	verifhook.At("unb.load", b)
 	b.mu.Lock()
 	defer b.mu.Unlock()
 	if len(b.backlog) > 0 {
@@ -102,6 +106,7 @@ func (b *Unbounded[T]) Get() <-chan T {
 // channel returned from Get() will be closed after all the data is read and
 // Load() is called for the final time.
 func (b *Unbounded[T]) Close() {
+	verifhook.At("unb.close", b)
 	b.mu.Lock()
 	defer b.mu.Unlock()
 	if b.closing {
